@@ -13,6 +13,9 @@ for d in sorted(glob.glob(os.path.join(verif, "seeded", "*"))):
     name = os.path.basename(d)
     jobs.append(("seeded/" + name, name.split("-")[0], os.path.join(d, "patch.diff")))
 res = []
+old = []
+if only and os.path.exists(os.path.join(here, "results.json")):
+    old = json.load(open(os.path.join(here, "results.json")))   # partial run: merge into the stored results
 for name, prop, path in jobs:
     if only and prop not in only and name not in only:
         continue
@@ -27,4 +30,7 @@ for name, prop, path in jobs:
     res.append(dict(mutant=name, property=prop, detected=bool(viol), noop=noop, seconds=round(time.time() - t, 1),
                     first=(viol[0][:300] if viol else "")))
     print("%-45s %-4s %s %5.0fs" % (name, prop, "NO-OP" if noop else ("DETECTED" if viol else "missed"), time.time() - t), flush=True)
-    json.dump(res, open(os.path.join(here, "results.json"), "w"), indent=1)
+    names = {r["mutant"] for r in res}
+    merged = [r for r in old if r["mutant"] not in names] + res
+    merged.sort(key=lambda r: (r["mutant"].startswith("seeded/"), r["mutant"]))
+    json.dump(merged, open(os.path.join(here, "results.json"), "w"), indent=1)
